@@ -34,7 +34,8 @@ RULE = ("a router with/without fallback (do_start_stop_run on/off) over 6 record
         "rules; RE-MAPPED keys (a second add_rule for the same route prefix / test id: every ordered pair of rule "
         "options for a key x positions g1 <= g2, new sink fresh / the old one / the fallback object / another rule's, "
         "the old sink also serving another rule) and SHARED sinks (one sink for 2-4 rules with different keys, the "
-        "fallback object as a rule's sink, registered for start/stop zero, one or several times), also in half of "
+        "fallback object as a rule's sink; do_start_stop_run=True on at most one registration of a sink object, the "
+        "fallback's counted: inside_wf repairs later ones to False), also in half of "
         "the random histories; REJECTED add_rule calls (table REJECTS: "
         "unknown/None/unhashable policy -> ValueError/TypeError, route_prefix with '/', None or non-string, missing "
         "or foreign keyword, unhashable test id) x do_start_stop_run on/off at every position of start,stop,start,stop, "
@@ -51,10 +52,15 @@ ASSUMPTIONS = ["route segments, test ids, tags, file names, mime types and times
                "of add_rule names - ValueError for an unknown policy, TypeError for arguments the policy cannot handle); "
                "the model carries what a rejected call does (raises, router unchanged, nothing delivered), not the "
                "argument binding of Python; the kind of exception is not compared, only that the call raised",
-               "'once per run' is read per registration: a sink that was asked for start/stop n times (as the fallback "
-               "with do_start_stop_run and/or by n add_rule(.., do_start_stop_run=True) calls naming the same object) "
-               "receives n startTestRun/stopTestRun per run, as the code does (one _sinks entry per registration); a "
-               "registration is never taken back, also when the sink's rule is re-mapped",
+               "wf (the property's quantifier as checked): every sink OBJECT has at most one do_start_stop_run=True "
+               "registration - as the fallback of a router built with do_start_stop_run, or by one accepted "
+               "add_rule(.., do_start_stop_run=True). A sink registered twice is OUTSIDE the quantifier: 'reach exactly "
+               "the sinks registered for them, once per run' is ambiguous there (per sink vs per registration; HEAD "
+               "sends one startTestRun/stopTestRun per registration, a de-duplicating rewrite one per sink) and the "
+               "check alarms on neither: the generator never leaves wf (inside_wf), so such histories are not run. "
+               "Everything else is inside: a sink may serve several rules and be the fallback as well "
+               "(do_start_stop_run=True on at most one of them), keys may be re-mapped, and a registration is never "
+               "taken back, also when the sink's rule is re-mapped",
                "a second add_rule for a key replaces the rule (dict assignment): 'the rule for' a key is the latest one"]
 EXPLANATION = ("Theorems in coq/Props/C18.v over all call histories; correspondence: every call of a generated history "
                "is made on a real StreamResultRouter (status calls directly or through real StreamToQueue objects "
@@ -496,15 +502,33 @@ def fixed_cases():
         {"n": 4, "fb": 0, "fb_ss": True, "ops": [["I", 1, None, True], ["I", 2, None, True], ["I", 2, None, False],
                                                  ["P", 0, 2, True, False], ["S"], ["E", [], ev(None, None)],
                                                  ["E", [], ev([2, 1], 0)], ["T"]]},
-        # one sink registered twice for start/stop (two rules with do_start_stop_run=True): the code keeps one
-        # _sinks entry per registration
-        {"n": 3, "fb": 0, "fb_ss": False, "ops": [["P", 1, 0, True, True], ["S"], ["I", 1, 0, True], ["T"], ["S"], ["T"]]},
         # empty history
         {"n": 1, "fb": 0, "fb_ss": True, "ops": []},
     ]
 
 
+def inside_wf(case):
+    """keep the history inside wf: a sink object is registered for start/stop at most once (the fallback of a router
+    built with do_start_stop_run counts); a later accepted add_rule for the same object gets do_start_stop_run=False"""
+    reg = set()
+    if case["fb"] is not None and case["fb_ss"]:
+        reg.add(case["fb"])
+    ops = []
+    for op in case["ops"]:
+        if op[0] in ("P", "I") and op[-1]:
+            if op[1] in reg:
+                op = op[:-1] + [False]
+            else:
+                reg.add(op[1])
+        ops.append(op)
+    return dict(case, ops=ops)
+
+
 def generate(rng, tier):
+    return [inside_wf(c) for c in _generate(rng, tier)]
+
+
+def _generate(rng, tier):
     cases = fixed_cases()
     opts = rule_options()
     # one rule at every position, every fallback mode
@@ -659,7 +683,7 @@ def shrink(case):
 def distribution(cases):
     d = {"rules": {}, "fallback": {"none": 0, "plain": 0, "start_stop": 0}, "route_len": {}, "via_len": {},
          "rules_added_in_run": 0, "rules_added_outside_run": 0, "status_calls": 0, "duplicate_keys": 0,
-         "shared_sinks": 0, "ops": 0,
+         "shared_sinks": 0, "ops": 0, "outside_wf_registered_twice": 0, "shared_sink_registered_once": 0,
          "rejected": {"cases_with": 0, "calls": 0, "in_run": 0, "outside_run": 0, "start_stop": 0,
                       "sink_accepted_later": 0, "sink_accepted_before": 0, "by_entry": {}}}
     for c in cases:
@@ -670,6 +694,9 @@ def distribution(cases):
         d["duplicate_keys"] += len(set(keys)) != len(keys)
         sinks = [op[1] for op in rules] + ([c["fb"]] if c["fb"] is not None else [])
         d["shared_sinks"] += len(set(sinks)) != len(sinks)
+        d["outside_wf_registered_twice"] += inside_wf(c) != c
+        regd = [op[1] for op in rules if op[-1]] + ([c["fb"]] if c["fb"] is not None and c["fb_ss"] else [])
+        d["shared_sink_registered_once"] += any(sinks.count(x) > 1 for x in regd)
         run = False
         rj = d["rejected"]
         rj["cases_with"] += any(op[0] == "R" for op in c["ops"])
